@@ -100,7 +100,9 @@ def cmd_worker(a) -> int:
     indices = [int(x) for x in a.indices.split(",") if x != ""]
     events_for = {int(x) for x in (a.events_for or "").split(",") if x != ""}
     t_start = time.time()
-    per_run_limit = float(getattr(eng, "PER_RUN_LIMIT_S", 300))
+    # one run may take at most a quarter of the batch allowance (and never more than 300 s): a run that does not come
+    # back must be discarded long before the worker's hard wall-clock kill
+    per_run_limit = min(float(getattr(eng, "PER_RUN_LIMIT_S", 300)), max(30.0, (a.wall or 1200) / 4.0))
 
     def on_alarm(signum, frame):
         raise core.RunTimeout()
@@ -115,6 +117,13 @@ def cmd_worker(a) -> int:
                 break
             rs = core.run_seed(f"{a.prop}/{a.engine}", a.seed, i)
             line = {"i": i, "run_seed": rs}
+            # a run that hangs inside C code (seen: LAPACK gelsd looping on a NaN jacobian inside scipy's dogbox)
+            # cannot be interrupted by the SIGALRM watchdog: the worker is killed shortly after and the coordinator
+            # discards exactly this run and restarts a worker for the rest
+            out.write(json.dumps({"started": i}) + "\n")
+            out.flush()
+            faulthandler.cancel_dump_traceback_later()
+            faulthandler.dump_traceback_later(per_run_limit * 1.5 + 30, exit=True)
             t0 = time.time()
             try:
                 if i >= FIXED_BASE:
@@ -293,35 +302,75 @@ def spawn_workers(
             extra["PYTHONHASHSEED"] = str(hashseed)
         env = core.fixed_env(extra)
         p = subprocess.Popen(cmd, env=env, stdout=err, stderr=err, cwd=VERIF)
-        procs.append((p, out, err))
+        procs.append({"p": p, "out": out, "err": err, "idx": list(idx), "cmd": cmd, "env": env, "respawns": 0})
     return procs
+
+
+def _read_lines(path):
+    out = []
+    if os.path.exists(path):
+        with open(path) as f:
+            for ln in f:
+                ln = ln.strip()
+                if ln:
+                    try:
+                        out.append(json.loads(ln))
+                    except ValueError:
+                        pass  # a line cut off by the kill
+    return out
 
 
 def collect(procs, wall):
     deadline = time.time() + wall + 90
     lines, errors = [], []
-    for p, out, err in procs:
+    queue = list(procs)
+    while queue:
+        w = queue.pop(0)
+        p, out, err = w["p"], w["out"], w["err"]
         try:
             rc = p.wait(timeout=max(1, deadline - time.time()))
         except subprocess.TimeoutExpired:
             p.kill()
-            errors.append(f"worker timed out ({out})")
             rc = -9
         err.close()
-        if rc not in (0,):
-            tail = ""
-            try:
-                with open(err.name) as f:
-                    tail = f.read()[-1500:]
-            except OSError:
-                pass
-            errors.append(f"worker exit {rc} ({out}): {tail}")
-        if os.path.exists(out):
-            with open(out) as f:
-                for ln in f:
-                    ln = ln.strip()
-                    if ln:
-                        lines.append(json.loads(ln))
+        got = _read_lines(out)
+        started = [ln["started"] for ln in got if "started" in ln]
+        finished = {ln["i"] for ln in got if "i" in ln}
+        results = [ln for ln in got if "started" not in ln]
+        lines += results
+        if rc == 0:
+            continue
+        hung = [i for i in started if i not in finished]
+        harness_failed = any("harness_error" in ln for ln in results)
+        if hung and not harness_failed and w["respawns"] < 4 and time.time() < deadline:
+            i = hung[-1]
+            lines.append(
+                {
+                    "i": i,
+                    "run_seed": None,
+                    "discarded": "hang: the run did not return even to the watchdog (killed); most likely a dependency looping in C code",
+                    "violations": [],
+                    "wall": 0.0,
+                }
+            )
+            rest = [j for j in w["idx"] if j not in finished and j != i]
+            if rest:
+                n = w["respawns"] + 1
+                out2 = out.replace(".jsonl", f".r{n}.jsonl")
+                err2 = open(err.name.replace(".err", f".r{n}.err"), "w")
+                cmd = list(w["cmd"])
+                cmd[cmd.index("--indices") + 1] = ",".join(map(str, rest))
+                cmd[cmd.index("--out") + 1] = out2
+                p2 = subprocess.Popen(cmd, env=w["env"], stdout=err2, stderr=err2, cwd=VERIF)
+                queue.append({"p": p2, "out": out2, "err": err2, "idx": rest, "cmd": cmd, "env": w["env"], "respawns": n})
+            continue
+        tail = ""
+        try:
+            with open(err.name) as f:
+                tail = f.read()[-1500:]
+        except OSError:
+            pass
+        errors.append(f"worker exit {rc} ({out}): {tail}")
     return lines, errors
 
 
